@@ -497,6 +497,7 @@ func c04(run *ev.Run, tier string) {
 	c04Spellings(run)
 	c04DirSpellings(run)
 	c04OddTreeNames(run)
+	c04UnusualDates(run)
 	c04DeepPaths(run)
 	afterFailedBuilds(run, "C04", func(f string, raw []byte, p *dec.Package) []problem { return structural(f, raw, p, false, true) })
 	c04AcceptedBytes(run)
@@ -763,6 +764,74 @@ func c04DeepPaths(run *ev.Run) {
 						break
 					}
 				}
+			}
+		}
+	}
+}
+
+// c04UnusualDates: package dates that do not fit eleven octal digits (before
+// 1970, from 2242 on). dpkg's own tar reader knows the v7, ustar and GNU header
+// types and treats any other typeflag - pax 'x' / 'g' included - as an error
+// (deb(5)), so no member of a deb or ipk tarball may need a pax header; and all
+// scripts being blank files does not make the archlinux .INSTALL member go away.
+func c04UnusualDates(run *ev.Run) {
+	dir := newWorkDir("c04-dates")
+	defer removeWorkDir(dir)
+	a := filepath.Join(dir, "a.txt")
+	_ = os.WriteFile(a, []byte("a\n"), 0o644)
+	blank := filepath.Join(dir, "blank.sh")
+	_ = os.WriteFile(blank, []byte(" \n\t\n"), 0o755)
+	empty := filepath.Join(dir, "empty.sh")
+	_ = os.WriteFile(empty, nil, 0o755)
+	chg := filepath.Join(dir, "changelog.yaml")
+	_ = os.WriteFile(chg, []byte("- semver: \"1.0.0\"\n  date: 2020-01-01T00:00:00Z\n  packager: \"P <p@example.com>\"\n  changes:\n    - note: \"n\"\n"), 0o644)
+	for _, mt := range []int64{-86400, -2208988800, 8589934592, 10413792000, 253402300799} {
+		s := &gen.Spec{Name: "dates", Arch: "amd64", Version: "1.0.0", Maintainer: "S <s@example.com>", Description: "d", MTime: mt, Changelog: chg}
+		s.RPM.BuildHost = "verif-host"
+		s.Contents = []*gen.Content{{Src: a, Dst: "/opt/dates/a.txt"}, {Src: a, Dst: "/etc/dates/a.conf", Type: "config"}}
+		s.Scripts.PostInstall = blank
+		s.Deb.Interest = []string{"/t"}
+		for _, f := range formats {
+			run.Case(fmt.Sprintf("unusual-package-date|%d|%s", mt, f), true)
+			res := buildYAML(s.YAML(), f)
+			if res.Err != nil || res.Panic != "" {
+				continue // a format may refuse a date it cannot store
+			}
+			p := dec.Decode(f, res.Bytes, false)
+			for _, x := range structural(f, res.Bytes, p, false, true) {
+				run.Violate("C04/"+f+"/"+x.kind, map[string]any{"package_mtime": mt, "detail": ev.Short(x.detail, 400)})
+			}
+			if f == "deb" || f == "ipk" {
+				for _, ta := range []*dec.TarArchive{p.Control, p.DataTar} {
+					if ta == nil {
+						continue
+					}
+					for _, e := range ta.Entries {
+						if e.PAX != nil {
+							run.Violate("C04/"+f+"/tar-member-needs-a-pax-header", map[string]any{"package_mtime": mt, "member": e.Name, "pax_records": fmt.Sprint(e.PAX)})
+							break
+						}
+					}
+				}
+			}
+		}
+	}
+	// all configured scripts are blank or empty files
+	for _, sc := range []string{blank, empty} {
+		s := &gen.Spec{Name: "blankscripts", Arch: "amd64", Version: "1.0.0", Maintainer: "S <s@example.com>", Description: "d", MTime: 1500000000}
+		s.RPM.BuildHost = "verif-host"
+		s.Contents = []*gen.Content{{Src: a, Dst: "/opt/dates/a.txt"}}
+		s.Scripts.PreInstall, s.Scripts.PostInstall, s.Scripts.PreRemove, s.Scripts.PostRemove = sc, sc, sc, sc
+		s.ArchL.PreUpgrade, s.ArchL.PostUpgrade = sc, sc
+		for _, f := range formats {
+			run.Case("all-scripts-blank|"+filepath.Base(sc)+"|"+f, true)
+			res := buildYAML(s.YAML(), f)
+			if res.Err != nil || res.Panic != "" {
+				continue
+			}
+			p := dec.Decode(f, res.Bytes, false)
+			for _, x := range structural(f, res.Bytes, p, false, true) {
+				run.Violate("C04/"+f+"/"+x.kind, map[string]any{"scripts": "all " + filepath.Base(sc), "detail": ev.Short(x.detail, 400)})
 			}
 		}
 	}
